@@ -73,10 +73,17 @@ def run_sim(spec):
     bodies = {}
     streams = {}
     token_of = {}
+    from s3transfer.bandwidth import BandwidthLimiter
+
+    # streams are made the way the manager makes them: by the BandwidthLimiter of the shared bucket, one per request body; with
+    # 'same_transfer' they all belong to ONE transfer (the parts of a ranged download / multipart upload), else to one each
+    limiter = BandwidthLimiter(bucket, time_utils=sim)
+    shared_coord = TransferCoordinator(transfer_id=0) if spec.get('same_transfer') else None
     for si, st in enumerate(spec['streams']):
         name = f's{si}'
-        coord = TransferCoordinator(transfer_id=si)
-        stream = BandwidthLimitedStream(Dummy(), bucket, coord, time_utils=sim, bytes_threshold=spec.get('threshold', 100))
+        coord = shared_coord or TransferCoordinator(transfer_id=si)
+        stream = limiter.get_bandwith_limited_stream(Dummy(), coord)
+        stream._bytes_threshold = spec.get('threshold', 100)  # scaled-down read threshold (the constructor default is 256 KiB)
         streams[name] = (stream, coord, st)
         token_of[id(stream._request_token)] = name
 
@@ -260,7 +267,7 @@ def gen_cases(tier, seed):
         nops = max(4, (60 if quick else 120) // S)
         streams = [{'start': rng.choice([0.0, 0.0, rng.random() * 0.2]), 'ops': ops_around(rng, mx, nops, amt_set, load_set)} for _ in range(S)]
         fam = 'saturated' if load_set == ['sat'] else 'mixed'
-        cases.append({'family': fam, 'seed': rng.randrange(1 << 30), 'max': mx, 'threshold': thr, 'streams': streams,
+        cases.append({'family': fam, 'same_transfer': rng.random() < 0.5, 'seed': rng.randrange(1 << 30), 'max': mx, 'threshold': thr, 'streams': streams,
                       'lateness': rng.choice(['none', 'none', 'small', 'large']), 'profile': 'default'})
     # O3: evenly staggered demand below the limit
     for i in range(40 if quick else 300):
@@ -272,7 +279,7 @@ def gen_cases(tier, seed):
         # under a coarse clock the measured inter-arrival time is off by up to one tick: keep a margin so that the
         # demand is below the limit also as the limiter's own clock measures it
         prof = rng.choice(['default', 'default', 'coarse']) if load <= 0.6 else 'default'
-        cases.append({'family': 'under', 'load': load, 'seed': rng.randrange(1 << 30), 'max': mx, 'threshold': min(100, amt), 'streams': streams,
+        cases.append({'family': 'under', 'same_transfer': rng.random() < 0.5, 'load': load, 'seed': rng.randrange(1 << 30), 'max': mx, 'threshold': min(100, amt), 'streams': streams,
                       'lateness': 'none', 'profile': prof})
     # default clock: a contended burst in which threads are preempted right after reading the clock (so that another
     # stream's consume can overtake them), followed by a quiet phase in which one stream reads a tiny fraction of the
@@ -282,7 +289,7 @@ def gen_cases(tier, seed):
         amt = rng.choice([10, 50, 100])
         streams = [{'start': 0.0, 'ops': [(amt, rng.choice([0.0, 0.01]))] * 8} for k in range(S)]
         streams[0]['ops'] = streams[0]['ops'] + [(amt, 1.0)] * 30
-        cases.append({'family': 'under', 'quiet_from': 8, 'load': 0.1, 'seed': rng.randrange(1 << 30), 'max': mx, 'threshold': amt,
+        cases.append({'family': 'under', 'same_transfer': rng.random() < 0.5, 'quiet_from': 8, 'load': 0.1, 'seed': rng.randrange(1 << 30), 'max': mx, 'threshold': amt,
                       'streams': streams, 'lateness': 'none', 'profile': 'default', 'time_yield': rng.choice([0.3, 0.6, 0.9]),
                       'yield_until': 2.5, 'yield_delays': rng.choice([[0.0, 0.001], [0.005, 0.02], [0.05, 0.1]])})
     # coarse clock: a short saturated burst of small reads (several scheduled wake-ups fall into one clock tick), after
@@ -291,7 +298,7 @@ def gen_cases(tier, seed):
         S = rng.choice([3, 4, 5])
         streams = [{'start': 0.0, 'ops': [(10, 0.0)] * 6} for k in range(S)]
         streams[0]['ops'] = streams[0]['ops'] + [(10, 1.0)] * 30
-        cases.append({'family': 'under', 'quiet_from': 6, 'load': 0.01, 'seed': rng.randrange(1 << 30), 'max': mx, 'threshold': 10,
+        cases.append({'family': 'under', 'same_transfer': rng.random() < 0.5, 'quiet_from': 6, 'load': 0.01, 'seed': rng.randrange(1 << 30), 'max': mx, 'threshold': 10,
                       'streams': streams, 'lateness': 'none', 'profile': rng.choice(['coarse', 'coarse', 'default'])})
     # abandonment at every wait point
     for i in range(80 if quick else 600):
@@ -306,7 +313,7 @@ def gen_cases(tier, seed):
     for i in range(30 if quick else 200):
         S = rng.randint(1, 6)
         streams = [{'start': 0.0, 'ops': [(100, rng.choice([0.0, 0.01]))] * 15} for _ in range(S)]
-        cases.append({'family': 'coarse', 'seed': rng.randrange(1 << 30), 'max': mx, 'threshold': 100, 'streams': streams,
+        cases.append({'family': 'coarse', 'same_transfer': rng.random() < 0.5, 'seed': rng.randrange(1 << 30), 'max': mx, 'threshold': 100, 'streams': streams,
                       'lateness': 'none', 'profile': 'coarse'})
     # end to end: every way data enters or leaves a manager with max_bandwidth set must pass through the limiter
     for rep in range(1 if quick else 4):
